@@ -126,6 +126,10 @@ def add_schemas(tier: str, constraint: Any = None) -> List[Schema]:
         ("cross", (a, 1, c), (1, b, 1)),
         ("rank-lift", (c,), (a, b, c)),
         ("2d", (a, b), (a, 1)),
+        # single-element operands: the output is not rescaled (it shifts the mean, not the spread)
+        ("single-element other", (a, b), (1,)),
+        ("0-dim other", (a, b), ()),
+        ("single-element input", (1, 1), (a, b)),
     ]
     return [Schema(f"add[{n}]", dict(input=P("input", x), other=P("other", y), constraint=constraint)) for n, x, y in pats]
 
